@@ -344,6 +344,16 @@ func (eng *Engine) verifyFunc(u *FuncUnit) (rep *FuncReport) {
 	}()
 	fv.run()
 	if u.C != nil && !u.C.Trusted {
+		for n := range u.C.ClosureChecked {
+			if fv.siteCount[fmt.Sprintf("closureprobe%d", n)] == 0 {
+				fv.specErr(fmt.Sprintf("closure %d of %s is under contract (checked/ensures) but its body was never executed on its own (contract out of date?)", n, u.Name()))
+			}
+		}
+		for _, pa := range u.C.PreAssigns {
+			if fv.siteCount["preassign"+pa.Cl.Label] == 0 {
+				fv.specErr(fmt.Sprintf("preassign clause %s.%s matches no assignment in %s (contract out of date?)", pa.Type, pa.Field, u.Name()))
+			}
+		}
 		for _, pc := range u.C.PreCalls {
 			if fv.siteCount["precall"+pc.Cl.Label] == 0 {
 				fv.specErr(fmt.Sprintf("precall clause %q matches no call in %s (contract out of date?)", pc.Re.String(), u.Name()))
